@@ -80,6 +80,10 @@ Definition set_release_frames (dt : detector) (n : G) := set_release_gain dt (ca
 Definition detector_new (nch : nat) (attack release : G) := det_new nch (calc_gain attack) (calc_gain release).
 End Gain.
 
+(* #[derive(Clone)] on Detector: field by field *)
+Definition det_clone (dt : detector) : detector :=
+  {| last_env := last_env dt; attack_gain := attack_gain dt; release_gain := release_gain dt |}.
+
 (* Peak detection: the rectifier per channel *)
 Definition detect_peak (which : Z) (fr : list T) : list T :=
   match which with
@@ -114,6 +118,32 @@ End Num.
 
 Arguments DFrame {N}. Arguments DSetAttack {N}. Arguments DSetRelease {N}.
 Arguments last_env {N}. Arguments attack_gain {N}. Arguments release_gain {N}.
+
+(* =========================================================================
+   Constructors of a peak detector (detect/peak.rs).  A rectifier is its code (0 FullWave,
+   1 PositiveHalfWave, 2 NegativeHalfWave); `Peak<R>` wraps the rectifier (`impl From<R> for Peak<R>`),
+   `Detect for Peak<R>` is `self.rectifier.rectify(frame)`.  A constructed peak detector is the
+   triple (rectifier code used by detect, attack time, release time) handed to Detector::new. *)
+Definition peak_from (rectifier : Z) : Z := rectifier.                      (* Peak { rectifier } *)
+Definition peak_full_wave : Z := peak_from 0.                               (* peak::FullWave.into() *)
+Definition peak_positive_half_wave : Z := peak_from 1.
+Definition peak_negative_half_wave : Z := peak_from 2.
+(* which: 0 Detector::peak, 1 Detector::peak_positive_half_wave, 2 Detector::peak_negative_half_wave *)
+Definition peak_ctor_named {G} (which : Z) (attack release : G) : Z * G * G :=
+  (match which with 0 => peak_full_wave | 1 => peak_positive_half_wave | _ => peak_negative_half_wave end,
+   attack, release).
+(* Detector::peak_from_rectifier(rectifier, attack_frames, release_frames):
+   `let peak = rectifier.into(); Self::new(peak, attack_frames, release_frames)` *)
+Definition peak_ctor_from_rectifier {G} (rectifier : Z) (attack release : G) : Z * G * G :=
+  (peak_from rectifier, attack, release).
+(* how the correspondence cases construct the detector: 0 the named constructor, 1 peak_from_rectifier,
+   2 Detector::new(Peak::from(rectifier), ..) *)
+Definition peak_ctor {G} (ctor which : Z) (attack release : G) : Z * G * G :=
+  match ctor with
+  | 0 => peak_ctor_named which attack release
+  | 1 => peak_ctor_from_rectifier which attack release
+  | _ => (peak_from which, attack, release)
+  end.
 
 (* =========================================================================
    Detector over an integer sample format whose Float is f32 (i8 i16 u8 u16).
